@@ -389,6 +389,14 @@ def random_refute(ob, inputs, tries=24):
     negated obligation is *evaluated* under that total assignment.  A hit is a genuine counter-model; a miss proves nothing."""
     import random
     rnd = random.Random(12345)
+
+    def draw():
+        u = rnd.random()
+        if u < 0.7:
+            return z3.RealVal(rnd.randint(-16, 24)) / 8                 # small dyadics
+        if u < 0.9:
+            return z3.RealVal(rnd.choice((-1, 1)) * rnd.randint(8, 64))  # medium
+        return z3.RealVal(rnd.choice((-1, 1)) * rnd.choice((100, 1024, 10000)))
     terms = flat_terms(inputs)
     if not terms or _has_quantifier(list(ob.pc) + [ob.formula]):
         return None
@@ -408,7 +416,7 @@ def random_refute(ob, inputs, tries=24):
             # diversify the path-condition model a little
             for t in terms:
                 if t.get_id() in pcv and z3.is_real(t) and rnd.random() < 0.25:
-                    s.add(t == z3.RealVal(rnd.randint(-16, 24)) / 8)
+                    s.add(t == draw())
             if s.check() == z3.sat:
                 m = s.model()
             s.pop()
@@ -418,7 +426,7 @@ def random_refute(ob, inputs, tries=24):
             if t.get_id() in pcv:
                 s2.add(t == m.eval(t, model_completion=True))
             elif z3.is_real(t):
-                s2.add(t == z3.RealVal(rnd.randint(-16, 24)) / 8)
+                s2.add(t == draw())
             elif z3.is_int(t):
                 s2.add(t == rnd.randint(0, 4))
             elif z3.is_bool(t):
